@@ -583,7 +583,7 @@ def fam_method(rng, opts=None):
         e = b.sqdist(x0, xs)
         kw = {}
         if rng.random() < 0.06 or opts.get("ic_scale"):
-            kw["scale"] = opts.get("ic_scale") or b.pick([1e3, 1e6, 1e9, 1e-4])
+            kw["scale"] = opts.get("ic_scale") or b.pick([1e3, 1e6, 1e9, 1e-4, 1e-9, 3e-10])
             b.feat("scaled_constraint")
         b.cons(e, "<=", 1.0 if ic == "dist" else 2.25, initial=True, **kw)
     # metric(s)
